@@ -99,10 +99,16 @@ func (w *vW) hooks() {
 	verifrt.OnReturn("github.com/mit-pdos/go-nfsd/inode.Decode", func(ip *inode.Inode) {
 		inode.VerifAssumeInvLocal(ip, ds, mx, w.dirSlots, w.lnkMax)
 		if ip.Inum == common.ROOTINUM {
-			verifrt.Assume(ip.Kind == nfstypes.NF3DIR)
+			// the root is created once by mkfs (generation 1) and never freed
+			verifrt.Assume(ip.Kind == nfstypes.NF3DIR && ip.Gen == 1)
 		}
 		if ip.Inum == 0 {
 			verifrt.Assume(ip.Kind == inode.NF3FREE)
+		}
+		if sb := verifrt.Param("sizeblocks", 0); sb > 0 {
+			// bound B_blocks on objects that may be freed inline: at most sizeblocks blocks, or large
+			// enough (>= 600 blocks) that freeing is handed to the background shrinker
+			verifrt.Assume(ip.ShrinkSize <= sb || ip.ShrinkSize >= 600)
 		}
 		for i := uint64(0); i < 10; i++ {
 			p := ip.VerifBlks()[i]
@@ -170,6 +176,13 @@ func (w *vW) hooks() {
 			if n != 0 {
 				ip := w.vInodeAt(n)
 				verifrt.Assume(ip.Kind == inode.NF3FREE)
+				// bound B_blocks: a half-freed inode handed out again has at most bblocks blocks left to free
+				verifrt.Assume(ip.ShrinkSize <= verifrt.Param("bblocks", 2))
+				if w.nialloc > 1 {
+					// bound: at most one half-freed inode is met per request (otherwise the allocate /
+					// finish-shrinking / retry loop of getAlloc has no bound in an arbitrary state)
+					verifrt.Assume(ip.ShrinkSize == 0)
+				}
 			}
 		}
 	})
